@@ -7,24 +7,24 @@ ODE_INV = ["FreeVsInlinedAgree", "ConfigOnlyChangesFreeSymbols", "SubstitutionBe
            "ParamsAreTheFreeSymbols", "UntouchedOnlyFeed", "RatePolyMatches", "OTypeOK"]
 ODE_T_EXTRA = ["PolyAgreesWithFold", "FeedExact", "CurrentConstantRules", "StoichDecomposes"]
 DEF = dict(orders="OrdOne", full="TRUE", points="Pts1", feeds="NoFeeds", phases="Ph1", rek="NoReK", maxhist=0,
-           names="NmId", pforms="PfPlain", cont="CtList")
+           names="NmId", pforms="PfPlain", cont="CtList", sforms="SfList", ov="Ov3")
 
 KIN = {
     "sys3_q": dict(cat="Cat6", maxr=3),
-    "sys2_q": dict(cat="Cat16", maxr=2, feeds="FdRev", pforms="PfAll"),
-    "orders_q": dict(cat="Cat8", maxr=2, orders="OrdSome", full="FALSE", names="NmIon", cont="CtAll"),
+    "sys2_q": dict(cat="Cat16", maxr=2, orders="OrdTwo", feeds="FdRev", pforms="PfAll", sforms="SfAll"),
+    "orders_q": dict(cat="Cat8", maxr=2, orders="OrdSome", full="FALSE", names="NmIon", cont="CtAll", sforms="SfAll"),
     "hist_q": dict(cat="Cat8", maxr=2, points="Pts13", rek="ReK1", maxhist=2, pforms="PfMa"),
-    "zero_q": dict(cat="Cat8", maxr=2, points="PtsZ1", feeds="FdZero", kvals="KZ", phases="Ph2", pforms="PfAll"),
+    "zero_q": dict(cat="Cat8", maxr=2, points="PtsZ1", feeds="FdZero", kvals="KZ", phases="Ph2", pforms="PfAll", ov="OvZ"),
     "zero_t": dict(cat="Cat16", maxr=2, points="PtsZero", feeds="FdZero", kvals="KZ", pforms="PfAll", cont="CtAll"),
     "half_q": dict(cat="CatHalf", maxr=2, points="PtsSq", feeds="Fd1", pforms="PfMa"),
     "half_t": dict(cat="CatHalfW", maxr=2, points="PtsSq", feeds="Fd1", pforms="PfAll", cont="CtAll"),
     "sys3_t": dict(cat="Cat16", maxr=3),
     "sys2_t": dict(cat="Cat64", maxr=2, pforms="PfAll"),
     "cstr_t": dict(cat="Cat16", maxr=2, points="Pts2", feeds="Fd2", cont="CtAll"),
-    "orders_t": dict(cat="Cat16", maxr=2, orders="OrdAll", names="NmIon", cont="CtAll"),
+    "orders_t": dict(cat="Cat16", maxr=2, orders="OrdAll", names="NmIon", cont="CtAll", sforms="SfAll"),
     "frac_t": dict(cat="Cat16", maxr=2, orders="OrdTwo", full="FALSE", points="PtsFrac", feeds="Fd2", pforms="PfMa"),
     "phase_t": dict(cat="Cat32", maxr=2, phases="Ph3", names="NmIon"),
-    "feedmap_t": dict(cat="Cat32", maxr=2, feeds="FdKinds", pforms="PfAll"),
+    "feedmap_t": dict(cat="Cat32", maxr=2, orders="OrdTwo", feeds="FdKinds", pforms="PfAll", sforms="SfAll"),
     "hist_t": dict(cat="Cat8", maxr=2, feeds="FdRev", rek="ReK", maxhist=2, pforms="PfMa"),
 }
 ODE = {
@@ -60,7 +60,8 @@ def body(d, ode):
              "  Orders <- %s" % d["orders"], "  FullOrder = %s" % d["full"], "  Points <- %s" % d["points"],
              "  Feeds <- %s" % d["feeds"], "  PhaseMaps <- %s" % d["phases"], "  ReKVals <- %s" % d["rek"],
              "  MaxHist = %d" % d["maxhist"], "  NameMap <- %s" % d["names"], "  PForms <- %s" % d["pforms"],
-             "  Containers <- %s" % d["cont"], "  OvKVals <- Ov3"]
+             "  Containers <- %s" % d["cont"], "  OvKVals <- %s" % d["ov"], "  SForms <- %s" % d["sforms"],
+             "  KeySortSeq <- %s" % ("SortIon" if d["names"] == "NmIon" else "SortId")]
     if ode:
         lines += ["  Configs <- %s" % d["configs"], "  Comp <- CompDef"]
     return lines
